@@ -97,7 +97,8 @@ def gen_disk_case(rng, nb=None, mode=None, cotan=None, small=False):
         break
     else:
         raise RuntimeError("generator could not produce a disk (nb=%s)" % nb)
-    case = {"verts": verts, "faces": fs, "mode": mode, "cotan": bool(cotan), "kind": kind, "disk": True}
+    case = {"verts": verts, "faces": fs, "mode": mode, "cotan": bool(cotan), "kind": kind, "disk": True,
+            "call": gen_call_form(rng)}
     add_polygon(rng, case)
     return case
 
@@ -111,6 +112,16 @@ def add_polygon(rng, case):
 
 
 MODES = ("circle", "square", "custom")
+
+
+def gen_call_form(rng):
+    """how the optional constructor arguments are written: positionally / by keyword / omitted when default /
+    explicitly with their default None (custom_boundary, uv_attr)"""
+    if rng.random() < 0.35:
+        return None                      # the plain all-keyword call
+    return {"mode": rng.choice(["pos", "kw", "omit"]), "cotan": rng.choice(["pos", "kw", "omit"]),
+            "verbose": rng.choice(["pos", "kw", "omit"]), "corners": rng.choice(["kw", "omit"]),
+            "cb": rng.choice(["omit", "none", "none"]), "uv_attr": rng.choice(["omit", "none"])}
 
 
 def gen_sequence_case(rng, small=True):
@@ -144,6 +155,8 @@ def gen_sequence_case(rng, small=True):
     else:
         seq = [{"mode": m(), "cotan": rng.random() < 0.5, "pre": rng.choice([None, None, "cotangent", "angles"])}
                for _ in range(rng.randint(2, 4))]
+    for st in seq:
+        st["call"] = gen_call_form(rng)
     case["seq"] = seq
     case["pattern"] = pat
     return case
@@ -351,6 +364,14 @@ def case_term(case, obs, cert):
                coq_bool(cert["posw"]), coq_bool(cert["D"].bit_length() <= EXACT_ORIENT_BITS)))
 
 
+def unit_term(case, term):
+    """(keyword custom_boundary written by the caller?, written as None?, case)"""
+    call = case.get("call") or {}
+    present = case["mode"] == "custom" or call.get("cb") == "none"
+    given_none = case["mode"] != "custom" and call.get("cb") == "none"
+    return "(%s, %s, %s)" % (coq_bool(present), coq_bool(given_none), term)
+
+
 # ---------------------------------------------------------------------- running the implementation
 def run_impl_cases(cases, timeout=900):
     if not cases:
@@ -450,7 +471,8 @@ def run(ctx):
                 "cotangent weights, both storages on every case; plus non-disks (sphere, annulus, torus, two components, "
                 "isolated vertex); plus SEQUENCES of 2-4 embeddings on ONE mesh object (cotangent then uniform, uniform then cotangent, "
                 "cotan/angles attributes computed persistently beforehand, changing boundary modes), every step judged against "
-                "the weights it asked for. Quick tier: interiors <= 8 vertices; thorough: up to 26. Non-trivial = an accepted disk with at least one interior vertex; distinct = by "
+                "the weights it asked for; the optional constructor arguments are written positionally / by keyword / omitted / "
+                "explicitly with their default None (custom_boundary, uv_attr) at random. Quick tier: interiors <= 8 vertices; thorough: up to 26. Non-trivial = an accepted disk with at least one interior vertex; distinct = by "
                 "canonical JSON of (vertices, faces, mode, weights, polygon)")
     ctx.assumptions += [
         "scipy.sparse.linalg.spsolve is not modelled: the theorems quantify over every solution of the partitioned system; "
@@ -492,7 +514,7 @@ def run(ctx):
         if "seq" in c:
             steps = o.get("steps", [])
             for k, st in enumerate(c["seq"]):
-                view = dict(c, mode=st["mode"], cotan=st["cotan"])
+                view = dict(c, mode=st["mode"], cotan=st["cotan"], call=st.get("call"))
                 ob = steps[k] if k < len(steps) else {"status": "error:no observation for this step"}
                 units.append((view, ob, ci, k))
         else:
@@ -514,6 +536,10 @@ def run(ctx):
         ctx.count("status " + st.split(":")[0])
         ctx.count("mode %s / %s" % (c["mode"], "cotan" if c["cotan"] else "uniform"))
         ctx.count("seed " + str(c.get("kind")))
+        cf = c.get("call") or {}
+        ctx.count("call: custom_boundary " + ("array" if c["mode"] == "custom" else "=None explicitly" if cf.get("cb") == "none" else "omitted"))
+        ctx.count("call: boundary_mode %s, use_cotan %s, save_on_corners %s, uv_attr %s"
+                  % (cf.get("mode", "kw"), cf.get("cotan", "kw"), cf.get("corners", "kw"), cf.get("uv_attr", "omit")))
         if step is not None:
             ctx.count("sequence step %d%s" % (step, (" after persistent " + cases[ci]["seq"][step]["pre"]) if cases[ci]["seq"][step].get("pre") else ""))
             if step > 0:
@@ -540,7 +566,7 @@ def run(ctx):
                       sample={"mode": c["mode"], "cotan": c["cotan"], "n_vertices": len(c["verts"]), "faces": c["faces"][:6],
                               "status": st, "uv_vertex": (o.get("uv_vertex") or [])[:4]})
         if st == "rejected":
-            terms.append(case_term(c, o, None))
+            terms.append(unit_term(c, case_term(c, o, None)))
             term_idx.append(ui)
         elif st == "ok":
             try:
@@ -558,7 +584,7 @@ def run(ctx):
                 skipped_exact += 1
             else:
                 ctx.count("exact-solution orientation evaluated (if promised)")
-            terms.append(case_term(c, o, cert))
+            terms.append(unit_term(c, case_term(c, o, cert)))
             term_idx.append(ui)
         else:
             dropped += 1      # driver error: also an oracle failure (key 'error'), reported below
@@ -578,7 +604,7 @@ def run(ctx):
     if b["model_ok"]:
         ctx.log("correspondence: %d case terms" % len(terms))
         shard = max(4, min(400, -(-len(terms) // core.NCPU)))
-        r = ctx.run_cases("tutte", HEADER, terms, "check_case", case_type="tcase", shard=shard, timeout=900)
+        r = ctx.run_cases("tutte", HEADER, terms, "check_unit", case_type="(bool * bool * tcase)", shard=shard, timeout=900)
         bad = [term_idx[i] for i in (r or [])]
     else:
         ctx.obligation("correspondence batches", "correspondence", False, "model does not compile")
@@ -624,7 +650,7 @@ def seq_failures(case, ob):
     out = []
     steps = ob.get("steps", [])
     for k, st in enumerate(case["seq"]):
-        view = dict(case, mode=st["mode"], cotan=st["cotan"])
+        view = dict(case, mode=st["mode"], cotan=st["cotan"], call=st.get("call"))
         o = steps[k] if k < len(steps) else {"status": "error:no observation for this step"}
         for key, msg in O.oracle(view, o):
             out.append((k, "seq/" + key, msg))
